@@ -694,6 +694,8 @@ pub fn run_stress(focus: &'static str, seed: u64, index: u64, args: &Args) -> Ca
         let shut = with_shutdown && t == 0;
         handles.push(thread::spawn(move || {
             let mut client = Client::new(t as u64 + 1);
+            // every third acknowledgement is first polled by another task (a waker that is never used again) before its owner awaits it
+            client.pre_poll_every = 3;
             let mut abnormal: Vec<Waited> = Vec::new();
             for n in 0..ops {
                 if rt::aborted() { break; }
